@@ -21,6 +21,18 @@ PROPS = ["C01", "C02", "C03", "C04", "C05", "C06", "C07", "C08", "C09", "C10",
          "C11", "C12", "C13", "C14", "C16", "C17", "C18", "C19"]
 
 
+def anchor_files(prop: str):
+    """the files a property is anchored in (properties.jsonl), non-test python files of the package only"""
+    out = []
+    for line in (VERIF / "properties.jsonl").read_text().splitlines():
+        if not line.strip():
+            continue
+        d = json.loads(line)
+        if d["id"] == prop:
+            out = [f for f in d.get("anchors", {}).get("files", []) if f.endswith(".py") and "/tests/" not in f]
+    return out
+
+
 def run_property(prop: str, tier: str, seed: int, evidence_dir=None, quiet=False, index=None) -> int:
     try:
         mod = importlib.import_module(f"sa.props.{prop}")
@@ -33,6 +45,11 @@ def run_property(prop: str, tier: str, seed: int, evidence_dir=None, quiet=False
         rep.stats["modules_parsed"] = len(idx.modules)
         rep.stats["functions_indexed"] = sum(len(m.functions) for m in idx.modules.values())
         mod.run(idx, rep, tier)
+        # shared rule: no function of the property's modules remembers results in a way that can go stale or be shared
+        from .rules.memo import check_memoisation
+        files = anchor_files(prop)
+        n = check_memoisation(idx, rep, files)
+        rep.floor("functions scanned for memoising decorators", n, 3)
         if tier == "thorough" and not os.environ.get("SA_NO_SELFTEST") and not rep.has_unlisted_violations():
             # the checker is itself checked: variants of the source on scratch copies must fire / stay silent as expected
             from .selftest import run_selftest
